@@ -501,7 +501,14 @@ func execEp(role, magic string, pre, seed []byte, gLen int, decoys []string, inp
 	return s
 }
 
+// lastHs / lastPriv: what the most recent runEp wrote during the handshake and the private key it
+// used (read back by the generator, which puts them on the protocol line: the reference validates
+// the sender's free choices - ElligatorSwift encoding, garbage bytes, decoy contents - instead of
+// predicting them).
+var lastHs, lastPriv []byte
+
 func runEp(roleTok, magic string, pre, seed []byte, gLen int, decoys []string, inp []byte, acts []string) (string, []byte) {
+	lastHs, lastPriv = nil, nil
 	role, fl, ok := parseRole(roleTok)
 	if !ok {
 		return "bad-op", nil
@@ -526,6 +533,8 @@ func runEp(roleTok, magic string, pre, seed []byte, gLen int, decoys []string, i
 		net2 = netOf(fl.net2)
 	}
 	err := handshake(p, role, netOf(magic), net2, pre, seed, gLen, ints(decoys))
+	lastHs = append([]byte(nil), rw.w.Bytes()...)
+	lastPriv = p.VerifSession().PrivOurs
 	dg := 0
 	if p.ShouldDowngradeToV1() {
 		dg = 1
@@ -533,7 +542,12 @@ func runEp(roleTok, magic string, pre, seed []byte, gLen int, decoys []string, i
 	if fl.adm == 3 {
 		adm.rel = adm.acq // nil release funcs: nothing to count
 	}
-	common := fmt.Sprintf("pfx=%s dg=%d adm=%d,%d,%d", hx(p.ReceivedPrefix()), dg, adm.acq, adm.rel, adm.heldIO)
+	// ReceivedPrefix is observed only where peer.go uses it: after ErrUseV1Protocol
+	pfx := "-"
+	if errors.Is(err, v2transport.ErrUseV1Protocol) {
+		pfx = hx(p.ReceivedPrefix())
+	}
+	common := fmt.Sprintf("pfx=%s dg=%d adm=%d,%d,%d", pfx, dg, adm.acq, adm.rel, adm.heldIO)
 	if err != nil {
 		return "hs=err:" + errClass(err) + " " + common + " w=" + digest(rw.w.Bytes()), rw.w.Bytes()
 	}
